@@ -13,7 +13,7 @@ LEVEL = 'proof'
 
 def frame(cx, name, paths, fn):
     writes = [w for p in paths for w in p.ex.ext_writes]
-    cx.ob(name + ".frame", [], blit(len(paths) >= 1 and not writes), kind='frame', function=fn, writes=str(sorted({w[1] for w in writes}))[:300],
+    cx.ob(name + ".frame", [], blit(len(paths) >= 1 and not writes), kind='frame', function=fn, writes=str(sorted({w[1] for w in writes}))[:300], **frame_meta(writes),
           statement="modifies nothing reachable from its arguments or from module/class level state")
 
 
